@@ -724,15 +724,26 @@ pub fn exec_op(sim: &Sim, op: &Op, in_cb: bool) {
                 return;
             }
             let d_ns = deadline_ns(sim, *dl);
-            let Some(d_ns) = d_ns else { return };
-            let inst = sim.instant_at(d_ns);
-            if guarded(sim, "as_source_mut", || disp.as_source_mut().inner.set_deadline(inst)).is_none() {
-                return;
+            match d_ns {
+                Some(d_ns) => {
+                    let inst = sim.instant_at(d_ns);
+                    if guarded(sim, "as_source_mut", || disp.as_source_mut().inner.set_deadline(inst)).is_none() {
+                        return;
+                    }
+                }
+                None => {
+                    // set_duration(Duration::MAX): the deadline cannot be represented, the timer
+                    // is parked (an armed one has to leave the wheel at the update that follows)
+                    if guarded(sim, "as_source_mut", || disp.as_source_mut().inner.set_duration(Duration::MAX)).is_none() {
+                        return;
+                    }
+                    sim.probe("timer_parked_by_set_duration_max");
+                }
             }
             {
                 let mut st = sim.st.borrow_mut();
                 if let K::Timer(t) = &mut st.srcs.get_mut(id).unwrap().k {
-                    t.deadline = Some(d_ns);
+                    t.deadline = d_ns;
                 }
             }
             drop(disp);
